@@ -73,23 +73,34 @@ func funcFull(coding string, level int, src []byte) satResult {
 		close(gate)
 		return res
 	}
-	filler := func() *gateWriter {
+	// a filler reports on `returned` when its call came back (which a queued call cannot do while the worker is parked)
+	filler := func() (*gateWriter, chan struct{}) {
 		gw := newGateWriter(gate)
+		returned := make(chan struct{})
 		wg.Add(1)
 		go func() {
 			defer wg.Done()
 			fasthttp.VerifStacklessWrite(coding, gw, []byte("filler"), 6)
+			close(returned)
 		}()
-		return gw
+		return gw, returned
 	}
 	for i := 0; i < queueCap; i++ {
 		filler()
 	}
-	// The worker is parked, so a queued filler never reaches its writer; a refused one compresses inline and
-	// reaches it at once.  Keep adding fillers until one is refused: from then on the queue is full.
+	// The worker is parked, so a queued filler never reaches its writer and never returns; a refused one compresses
+	// inline and reaches its writer at once (or, if the refusal were dropped, returns at once).  Keep adding fillers
+	// until one is refused: from then on the queue is full.
 	full := false
 	for i := 0; i < 200 && !full; i++ {
-		full = waitOrTimeout(filler().entered, 300*time.Millisecond)
+		gw, returned := filler()
+		select {
+		case <-gw.entered:
+			full = true
+		case <-returned:
+			full = true
+		case <-time.After(300 * time.Millisecond):
+		}
 	}
 	if !full {
 		res.Note = "could not fill the queue"
